@@ -69,13 +69,13 @@ def classify(case, d):
 
 
 def fixed_horizon_bound_violation(case):
-    """True if the control grid is numeric (fixed t0 and T, grid not localized, not free) and one of its intervals is
+    """True if the interval lengths are numeric (fixed T, grid not localized, not free) and one of the intervals is
     shorter than min / longer than max: no NLP constraint can enforce the bound, the problem must be refused"""
     from ..common import Fr
     m = case["method"]
     g = m.get("grid") or {}
-    if "fixed" not in case.get("T", {}) or "fixed" not in case.get("t0", {"fixed": 0}):
-        return False
+    if "fixed" not in case.get("T", {}):
+        return False          # (the interval lengths do not depend on t0)
     if g.get("localize_t0") or g.get("localize_T") or g.get("class", "Uniform") == "Free":
         return False
     lo = float(Fr(g["min"])) if g.get("min") is not None else 0.0
